@@ -120,6 +120,30 @@ def run(ctx):
             pass
         if len(ctx.samples) < 6 and ctx.rng.random() < .02:
             ctx.sample(how)
+    # extra compared with a text that is not a valid extra name: reported, kept, and it never matches - under every evaluator,
+    # whatever extras are active (the normalised spelling of the text included)
+    from . import c02
+    for bad in ('a b', 'not a name!', '-dash', 'trailing-', 'é', ''):
+        for tmpl, want in (("extra == %s", 'F'), ("%s == extra", 'F'), ("extra != %s", 'T'), ("os_name == 'posix' and extra == %s", 'F'), ("os_name == 'nt' or extra != %s", 'T')):
+            text = tmpl % markers.q(ctx.rng, bad)
+            reg, r = sess.parse(text)
+            ctx.oracle_cases += 1
+            if reg is None:
+                ctx.failure('a comparison of extra with an invalid name was not accepted: %r' % text, {'text': text})
+                continue
+            if 'extra-invalid' not in dump(r[3]) and 'extra' not in dump(r[3]):
+                ctx.failure('no warning for extra compared with the invalid name %r (reported: %s)' % (bad, dump(r[3])), {'text': text})
+            for active in ([], ['a-b'], ['dev'], ['a-b', 'dash', 'trailing']):
+                env = dict(markers.DEFAULT_ENV)
+                g = c02.eval_all(sess, reg, env, active)
+                gx = sess.ask(['evalx', str(reg), [S(x) for x in active]])
+                gp = sess.ask(['evalxpv', str(reg), [S(x) for x in active], [S('3.8')]])
+                vals = {'evaluate': g[1], 'evaluate_reporter': g[2], 'evaluate_collect_warnings': g[3], 'evaluate_optional_environment(Some)': g[4], 'Requirement::evaluate_markers': g[5],
+                        'evaluate_extras': gx[1], 'evaluate_optional_environment(None)': gx[2], 'evaluate_extras_and_python_version': gp[1], 'Requirement::evaluate_extras_and_python_version': gp[2]}
+                wrong = [k for k, v in vals.items() if v != want]
+                if wrong:
+                    ctx.failure('%r with active extras %r: %s give %s, an invalid extra name never matches (expected %s)' % (text, active, ', '.join(wrong), 'T' if want == 'F' else 'F', want),
+                                {'text': text, 'extras': active})
     tm.close()
     sess.close()
     if not ctx.samples:
